@@ -277,7 +277,11 @@ impl Hist {
 					tags.push(if c.coinbase { "spend_coinbase" } else { "spend_plain" }.to_string());
 					// placement class: was this coin created on the trunk or on this branch?
 				}
-				let spent = self.spent_coins(parent);
+				let spent: Vec<Coin> = self
+					.spent_coins(parent)
+					.into_iter()
+					.filter(|c| !c.coinbase)
+					.collect();
 				if !recreated && !spent.is_empty() && self.prng.chance(1, 4) {
 					let r = self.prng.pick(&spent).clone();
 					if let Some(tx) = self.recreate_tx(&ins[0], &r) {
@@ -432,4 +436,108 @@ pub fn shape_sig(h: &Hist) -> String {
 		classes,
 		tags.keys().collect::<Vec<_>>()
 	)
+}
+
+// ---------------------------------------------------------------- persistence
+// Histories are generated once (output creation parallelises over threads) and
+// consumed by worker *processes* (block validation does not parallelise inside
+// one process). Blocks are stored with protocol version 2 so that inputs keep
+// their features.
+
+use grin_core::ser::{self, DeserializationMode, ProtocolVersion};
+use serde_json::{json, Value};
+
+fn hex(b: &[u8]) -> String {
+	let mut s = String::with_capacity(b.len() * 2);
+	for x in b {
+		s.push_str(&format!("{:02x}", x));
+	}
+	s
+}
+
+fn unhex(s: &str) -> Vec<u8> {
+	(0..s.len() / 2)
+		.map(|i| u8::from_str_radix(&s[2 * i..2 * i + 2], 16).unwrap_or(0))
+		.collect()
+}
+
+pub fn block_to_hex(b: &Block) -> String {
+	hex(&ser::ser_vec(b, ProtocolVersion(3)).expect("ser block"))
+}
+
+pub fn block_from_hex(s: &str) -> Block {
+	let bytes = unhex(s);
+	ser::deserialize(&mut &bytes[..], ProtocolVersion(3), DeserializationMode::default())
+		.expect("deser block")
+}
+
+pub fn hist_to_json(h: &Hist) -> Value {
+	let mut coins: Vec<&Coin> = h.coins.values().collect();
+	coins.sort_by(|a, b| a.commit.0.cmp(&b.commit.0));
+	json!({
+		"seed": h.world.seed,
+		"real_pow": h.real_pow,
+		"next_key": h.next_key,
+		"genesis": block_to_hex(&h.genesis),
+		"blocks": h.blocks.iter().map(|b| json!({
+			"hex": block_to_hex(&b.block), "class": b.class, "tags": b.tags,
+		})).collect::<Vec<_>>(),
+		"coins": coins.iter().map(|c| json!({
+			"value": c.value, "key": hex(&c.key_id.to_bytes()), "coinbase": c.coinbase,
+		})).collect::<Vec<_>>(),
+	})
+}
+
+pub fn hist_from_json(v: &Value) -> Hist {
+	let seed = v["seed"].as_u64().unwrap_or(0);
+	let world = World::new(seed);
+	let genesis = block_from_hex(v["genesis"].as_str().unwrap_or(""));
+	let mut ledger = RefLedger::new(&genesis);
+	let mut blocks = vec![];
+	for jb in v["blocks"].as_array().cloned().unwrap_or_default() {
+		let b = block_from_hex(jb["hex"].as_str().unwrap_or(""));
+		ledger.add(&b);
+		let parent = b.header.prev_hash;
+		let verdict = ledger.state_at(&parent).check_block(&b);
+		blocks.push(GenBlock {
+			hash: b.hash(),
+			parent,
+			block: b,
+			verdict,
+			class: jb["class"].as_str().unwrap_or("").to_string(),
+			tags: jb["tags"]
+				.as_array()
+				.map(|a| a.iter().filter_map(|x| x.as_str().map(|s| s.to_string())).collect())
+				.unwrap_or_default(),
+		});
+	}
+	let mut coins = HashMap::new();
+	for jc in v["coins"].as_array().cloned().unwrap_or_default() {
+		let key = grin_keychain::Identifier::from_bytes(&unhex(jc["key"].as_str().unwrap_or("")));
+		let c = world.coin(
+			jc["value"].as_u64().unwrap_or(0),
+			&key,
+			jc["coinbase"].as_bool().unwrap_or(false),
+		);
+		coins.insert(ckey(&c), c);
+	}
+	Hist {
+		world,
+		ledger,
+		genesis,
+		blocks,
+		coins,
+		next_key: v["next_key"].as_u64().unwrap_or(1) as u32,
+		real_pow: v["real_pow"].as_bool().unwrap_or(false),
+		prng: Prng::new(seed ^ 0x4c4f_4144),
+	}
+}
+
+pub fn save_hist(h: &Hist, path: &str) {
+	std::fs::write(path, serde_json::to_string(&hist_to_json(h)).unwrap()).expect("write hist");
+}
+
+pub fn load_hist(path: &str) -> Hist {
+	let s = std::fs::read_to_string(path).expect("read hist");
+	hist_from_json(&serde_json::from_str(&s).expect("parse hist"))
 }
